@@ -459,7 +459,8 @@ def main():
         kid, (desc, src) = item
         tmp = Result(PROP, a.tier, a.seed)
         test = "pub fn test() -> Result<(), String> { Ok(()) }\n"
-        exe = build_decls(tmp, [(kid, src + test, [])], f'dc_known_{kid}', target_dir=os.path.join(WORK, 'target_known'), quiet=True)
+        kfeat = ['ns'] if '[features: ns]' in desc else None       # a known-bad construct may need a feature of the crate to show
+        exe = build_decls(tmp, [(kid, src + test, [])], f'dc_known_{kid}', target_dir=os.path.join(WORK, 'target_known'), quiet=True, features=kfeat)
         return kid, desc, src, exe is not None, (tmp.broken[0][2] if tmp.broken else '')
     known_results = list(map(try_known, D.KNOWN_BAD.items()))
     for kid, desc, src, ok, err in known_results:
